@@ -105,6 +105,9 @@ func TestCheck(t *testing.T) {
 			if seq.shards() > 2 {
 				r.Count("sequences_with_3_to_8_shards", 1)
 			}
+			if seq.shards() == 1 {
+				r.Count("sequences_with_a_single_shard", 1)
+			}
 			if bulk {
 				r.Count("bulk_sequences", 1)
 				mu.Lock()
@@ -220,6 +223,9 @@ func TestCheck(t *testing.T) {
 		r.Set("max_api_calls_in_a_sequence", maxCalls)
 		r.Set("max_persisted_conditions_in_a_bulk_sequence", maxSeeds)
 		r.Require(r.Counter("sequences_with_3_to_8_shards") >= int64(r.N(25, 800)), "too few sequences with 3..8 shards")
+		r.Require(r.Counter("sequences_with_a_single_shard") >= int64(r.N(5, 150)), "too few sequences with a single shard")
+		r.Require(r.Counter("crashes_inside_a_flush_stop_or_tick") >= int64(r.N(1000, 30000)) && r.Counter("crashes_inside_a_save_or_delete") >= int64(r.N(1000, 30000)) && r.Counter("crashes_inside_a_delete_upstream") >= int64(r.N(100, 3000)),
+			"crash points inside flushes / saves / delete-upstreams hardly exercised")
 		r.Require(r.Counter("bulk_sequences") >= int64(r.N(4, 100)) && maxSeeds >= 30 && maxCalls >= 40, "bulk sequences (dozens of conditions per shard) hardly exercised")
 		r.Set("store_panics_under_non_crash_faults", storePanics)
 		if len(storePanicSample) > 0 {
@@ -284,6 +290,20 @@ func countRun(r *vkit.R, res runResult) {
 	r.Count("saves_of_an_object_shared_with_the_caller", res.AliasedSaves)
 	if res.Retried {
 		r.Count("runs_with_stop_or_flush_retried_after_error", 1)
+	}
+	if res.Crashed {
+		// crash points INSIDE an operation: between the API write and the cache update of a write-through save / delete
+		// (crash-after at its last call), or between two writes of a flush / stop / tick / delete-upstream
+		switch res.HitOp {
+		case "flush", "stop", "tick":
+			r.Count("crashes_inside_a_flush_stop_or_tick", 1)
+		case "save", "get-mutate-save", "mutate-resave", "delete":
+			r.Count("crashes_inside_a_save_or_delete", 1)
+		case "delete-upstream":
+			r.Count("crashes_inside_a_delete_upstream", 1)
+		case "load":
+			r.Count("crashes_inside_the_load", 1)
+		}
 	}
 	if res.RanBetween {
 		r.Count("runs_where_concurrent_operation_ran_between_flush_calls", 1)
